@@ -81,7 +81,8 @@ def rule_lines_evaluated(ctx, res, sizes):
                       'every content of the {} bytes'.format(sec, se.size),
                       '{} lines'.format(len(se.want_lines)),
                       '{} section is not written in the PICO-8 format: '
-                      '{}'.format(sec, d), wf.loc if wf else '')
+                      '{}'.format(sec, d), wf.loc if wf else '',
+                      semantic=True)
             done.add('writer')
         if isinstance(se.reader_ref, AnalysisError):
             res.info(rule, se.cls.qual, sec + ': reader not followed by the '
@@ -93,7 +94,8 @@ def rule_lines_evaluated(ctx, res, sizes):
                       '{} reader: from_lines(reference text of memory) == '
                       'memory for every content'.format(sec), '',
                       '{} section is not read per the PICO-8 format: '
-                      '{}'.format(sec, d), rf.loc if rf else '')
+                      '{}'.format(sec, d), rf.loc if rf else '',
+                      semantic=True)
             done.add('reader')
         decided[sec] = done
     return decided
@@ -453,7 +455,7 @@ def rule_png_pixels(ctx, res):
                   'evaluated on a {}x{} image of symbolic pixels'.format(
                       *XC.PNG_DIMS[:2]),
                   'PNG reader does not follow the format: {}'.format(d),
-                  pe.rf.loc)
+                  pe.rf.loc, semantic=True)
         done.add('reader')
     if pe is not None and not isinstance(pe.writer, AnalysisError):
         d = pe.writer_diff()
@@ -463,7 +465,7 @@ def rule_png_pixels(ctx, res):
                   'evaluated on a {}x{} image, {} data bytes'.format(
                       XC.PNG_DIMS[0], XC.PNG_DIMS[1], XC.PNG_DIMS[3]),
                   'PNG writer does not follow the format: {}'.format(d),
-                  pe.wf.loc)
+                  pe.wf.loc, semantic=True)
         done.add('writer')
     if 'reader' not in done:
         _png_reader_old(ctx, res)
